@@ -70,6 +70,7 @@ def run(rep, tier):
             rep.ob(not r['extra']['changed'], '%s:NOOP-STATE:%s' % (r['fn'], tn),
                    'C11 %s modifies parser/writer state although the value is not a container: %s' % (where, r['extra']['changed'][:4]), '',
                    sample={'fn': r['fn'], 'current_type': tn, 'stores_to_parser_or_writer_state': 0})
+        rep.coverage['to_writer_exits'] = to_writer_clause(rep, mod)
         try:
             span_clause(rep, sc, tier)
         except AnalysisBroken as e:
@@ -162,3 +163,87 @@ def span_clause(rep, sc, tier):
     if not any(a != 'get_raw' and 'get_raw' in v[3][:-1] for (w, a), v in bad.items()):
         rep.ob(True, 'binson_parser_get_raw:CONTINUATION', '',
                sample={'rule': 'every call sequence containing get_raw agrees with the reference cursor afterwards'})
+
+
+# ---- clause 3: parser_to_writer hands exactly the extracted span to the writer ------------------------------------------------
+class TWHooks(LibHooks):
+    """get_raw replaced by a summary (false, or true with raw = a tracked span); every _write call is recorded with its piece"""
+
+    def stub_call(self, st, name, args, ins):
+        if name != 'binson_parser_get_raw':
+            return None
+        lay = self.lay
+        out = []
+        for ok in (1, 0):
+            s = st.copy()
+            s.tags['raw_ok'] = ok
+            if ok and isinstance(args[1], Ptr):
+                bs = s.regions['BUF'].length
+                off = s.fresh('raw:off', lay.szw, 0, lay.objmax)
+                n = s.fresh('raw:len', lay.szw, 2, lay.objmax)
+                s.store.assume_ge0(bs.sub(Aff.sym(off)).sub(Aff.sym(n)))
+                r = args[1]
+                cells = s.wcells(r.region)
+                o1 = r.off.add(lay.bbuf['bptr'][0])
+                o2 = r.off.add(lay.bbuf['bsize'][0])
+                cells[(o1.key(), lay.ptr)] = (o1, lay.ptr, Ptr('BUF', Aff.sym(off)))
+                cells[(o2.key(), lay.ptr)] = (o2, lay.ptr, Int(lay.szw, Aff.sym(n)))
+                s.tags['raw_span'] = (off, n)
+            out.append((s, Int(1, Aff(ok))))
+        return out
+
+    def on_call(self, st, name, args, ins):
+        if name == '_write' and len(args) == 2 and isinstance(args[1], Ptr):
+            lay = self.lay
+            r = args[1]
+            bp = (st.cells(r.region) or {}).get((r.off.add(lay.bbuf['bptr'][0]).key(), lay.ptr))
+            bz = (st.cells(r.region) or {}).get((r.off.add(lay.bbuf['bsize'][0]).key(), lay.ptr))
+            st.tags['writes'] = st.tags.get('writes', ()) + ((bp[2] if bp else None, bz[2] if bz else None, ins.loc()),)
+
+    def on_store(self, st, r, off, size, val, ins):
+        LibHooks.on_store(self, st, r, off, size, val, ins)
+        if r.name in ('W', 'WBUF'):
+            st.tags['wtouched'] = True
+
+    def on_copy(self, st, rd, doff, rs, soff, length, ins):
+        LibHooks.on_copy(self, st, rd, doff, rs, soff, length, ins)
+        if rd.name in ('W', 'WBUF'):
+            st.tags['wtouched'] = True
+
+
+def to_writer_clause(rep, mod):
+    from engine.contracts import Contracts
+    api = 'binson_parser_to_writer'
+    fn = mod.functions.get(api)
+    need(fn is not None, 'C11: %s not found' % api)
+    hooks = TWHooks()
+    C = Contracts(mod, hooks)
+    n = 0
+    for (label, st, args) in C.entries(api):
+        if not (label.startswith('ok-d1') and label.endswith('wok')):
+            continue
+        st.frames = [C._root_frame()]
+        outs = C.split_bool_returns(C.I.call_function(st, fn, args, None))
+        for (s, rv) in outs:
+            if 'raw_ok' not in s.tags:
+                continue
+            n += 1
+            S = s.store
+            rc = S.const_of(rv.a) if isinstance(rv, Int) else None
+            ws = s.tags.get('writes', ())
+            if not s.tags['raw_ok']:
+                rep.ob(rc == 0 and not ws and not s.tags.get('wtouched'), '%s:TO-WRITER:no-container' % api,
+                       'C11 TO-WRITER %s: get_raw failed but the function returns %r / reaches the writer (%d write calls)' % (api, rc, len(ws)), '',
+                       sample={'case': 'get_raw returned false', 'returns': rc, 'write_calls': len(ws)})
+                continue
+            off, ln = s.tags['raw_span']
+            ok = len(ws) == 1
+            why = '%d write calls' % len(ws)
+            if ok:
+                bp, bz, loc = ws[0]
+                ok = isinstance(bp, Ptr) and bp.region == 'BUF' and S.entails_eq0(bp.off.sub(Aff.sym(off))) and isinstance(bz, Int) and S.entails_eq0(bz.a.sub(Aff.sym(ln)))
+                why = 'the piece handed to the writer is (%r, %r), the extracted span is (BUF+%s, %s)' % (bp, bz, off, ln)
+            rep.ob(ok, '%s:TO-WRITER:span' % api, 'C11 TO-WRITER %s does not hand exactly the span get_raw returned to the writer: %s' % (api, why), '',
+                   sample={'case': 'get_raw returned true', 'write_calls': len(ws), 'piece': 'exactly (raw.bptr, raw.bsize)'})
+    need(n >= 2, 'C11: binson_parser_to_writer was not seen to call binson_parser_get_raw (%d exits)' % n)
+    return n
